@@ -97,7 +97,6 @@ def r3_exact(ctx):
             ctx.violated(f, e.node, f"{name}: inexact value reaches an exact sink", e.detail)
 
 
-@shape_rule
 def r4_random_rule(ctx):
     prog = ctx.prog
     f = prog.find_func("random_transfer")
